@@ -402,52 +402,76 @@ def same_col(a, b):
 
 
 def block_entries(text):
-    """the message entries of ONE block out of a strict failure text: `messages` is never cleared, so the text lists
-    the entries of earlier blocks too; the block's own are the last N ("Stopped parsing after N errors")"""
+    """the message entries of ONE block out of a strict failure text, wording-agnostic: the first line is the
+    summary, every further line is one entry (generated cells hold no newline). `messages` is never cleared, so
+    entries of earlier blocks come first; the block's own are the last N, N = the count the summary line states"""
     import re as _re
-    m = _re.match(r"Stopped parsing after (\d+) errors in table '.*?' with messages:\n", text, _re.S)
-    if not m:
+    lines = text.split("\n")
+    if len(lines) < 2:
         return None
-    entries = join_message_lines(text[m.end():].split("\n"))
-    n = int(m.group(1))
-    return entries[-n:] if n else []
+    m = _re.search(r"(?<![\w.])(\d+)(?![\w.])", lines[0])
+    entries = [l for l in lines[1:] if l.strip()]
+    if m:
+        n = int(m.group(1))
+        return entries[-n:] if n else []
+    return entries
+
+
+def _has_number(entry, n):
+    import re as _re
+    return _re.search(r"(?<![\w.])%d(?![\w.])" % n, entry) is not None
 
 
 def expect_message_names_defects(entries, tab, d, out, case, what="strict failure message"):
-    """the message entries of a block name every injected defect (entries: list of message strings of that block)"""
+    """the message entries of a block NAME every injected defect — judged by containment, not by wording: an illegal
+    cell by its value text as the fixer receives it (and the vtype), a duplicate column by its name and position, a
+    short row by its row number; every defect needs an entry of its own (a matching), and what is left over may only
+    name filler cells that are illegal for their column"""
     names = header_names(tab, d)
-    left = list(entries)
-
-    def take(want, kind):
-        for k, e in enumerate(left):
-            if e.startswith(want):
-                del left[k]
-                return True
-        out.fail(f"{what} does not name an injected {kind}", case, entries[-8:], want, key="strict_message:" + kind.split()[0])
-        return False
+    wants = []                                               # (kind, description, predicate on an entry)
     for j in sorted(d["dups"]):
-        if not take(f"Duplicate column '{names[j]}' at position {j} in table '{tab['name']}'", "duplicate column"):
-            return False
+        wants.append(("duplicate column", f"column name {names[j]!r} and position {j}",
+                      lambda e, n=names[j], j=j: n in e and _has_number(e, j)))
     for i in sorted(d["short"]):
-        if not take(f"Missing data in row {i} of table '{tab['name']}'", "short row"):
-            return False
+        wants.append(("short row", f"row number {i}",
+                      lambda e, i=i: _has_number(e, i) and not any(v in e for v in VTYPE.values())))
     ill = effective_illegal(tab, d)
     for (i, j), v in sorted(ill.items(), key=lambda kv: kv[0]):
         k = tab["kinds"][j]
         shown = v
         if isinstance(v, str):
             shown = v.strip().lower() if k == "num" else (v.strip() if k == "datetime" else v)
-        if not take(f"Illegal value '{shown}' for unit '{VTYPE[k]} ' in table '{tab['name']}'", "illegal cell"):
-            return False
+        wants.append(("illegal cell", f"value text {str(shown)!r} and vtype {VTYPE[k]}",
+                      lambda e, t=f"{shown}", vt=VTYPE[k]: t in e and vt in e))
     for (i, j) in padded_illegal(tab, d):
-        if not take(f"Illegal value 'None' for unit '{VTYPE[tab['kinds'][j]]} ' in table '{tab['name']}'",
-                    "illegal cell (empty cell padded into a short line)"):
-            return False
-    # what is left can only be filler cells of short rows that are illegal for their column (onoff)
+        wants.append(("illegal cell (empty cell padded into a short line)", f"value text 'None' and vtype {VTYPE[tab['kinds'][j]]}",
+                      lambda e, vt=VTYPE[tab["kinds"][j]]: "None" in e and vt in e))
+    # filler cells of short rows that are illegal for their column (onoff) are named too: by the filler text
     n_fill = sum(1 for i, c in d["short"].items() for j in range(c, len(tab["names"])) if tab["kinds"][j] == "onoff")
-    extra = [e for e in left if not e.startswith("Illegal value 'NaN' for unit 'onoff '")]
-    if extra or len(left) != n_fill:
-        out.fail(f"{what} has entries that name no defect of this block", case, left, n_fill, key="strict_message:extra")
+    for _ in range(n_fill):
+        wants.append(("filler cell", "the filler text 'NaN' and vtype onoff", lambda e: "NaN" in e and "onoff" in e))
+    # a matching that gives every defect an entry of its own (tiny sizes: augmenting paths)
+    adj = [[k for k, e in enumerate(entries) if pred(e)] for (_, _, pred) in wants]
+    match_of_entry = {}
+
+    def augment(u, seen):
+        for k in adj[u]:
+            if k in seen:
+                continue
+            seen.add(k)
+            if k not in match_of_entry or augment(match_of_entry[k], seen):
+                match_of_entry[k] = u
+                return True
+        return False
+    for u in range(len(wants)):
+        if not augment(u, set()):
+            kind, desc, _ = wants[u]
+            out.fail(f"{what} does not name an injected {kind}", case, entries[-8:], desc,
+                     key="strict_message:" + kind.split()[0])
+            return False
+    left = [e for k, e in enumerate(entries) if k not in match_of_entry]
+    if left:
+        out.fail(f"{what} has entries that name no defect of this block", case, left, len(wants), key="strict_message:extra")
         return False
     return True
 
@@ -652,7 +676,7 @@ def one_case(seed, idx, out, model_ok, ops, pend):
                 entries = block_entries(txt)
                 if entries is None:
                     out.fail("a strict read failed with something else than the fixer's report", dict(case, table=k),
-                             txt[:300], "Stopped parsing after N errors … with messages", key="strict_not_report")
+                             txt[:300], "a summary line followed by one entry per defect", key="strict_not_report")
                     ok_case = False
                     break
                 if not expect_message_names_defects(entries, t, d, out, dict(case, table=k)):
@@ -1132,14 +1156,15 @@ def run(tier, seed, model_ok, translator, search=False):
                 if mfix["errors"] + mfix["warnings"] == 0:
                     out.mismatch("strict read failed but the lenient model counts nothing", case, txt[-200:], mfix)
                     continue
-                lines = txt.split("with messages:\n", 1)[-1].split("\n") if "with messages:\n" in txt else []
+                lines = txt.split("\n")[1:]
                 got = rc.canon_msgs(join_message_lines(lines))
                 want = mfix["msgs"]
                 if got[-len(want):] != want:
                     out.mismatch("strict failure: messages in the error text vs the lenient model run", case, got, want)
-                want_n = f"Stopped parsing after {mfix['errors'] + mfix['warnings']} errors"
-                if want_n not in txt:
-                    out.mismatch("strict failure: number of errors in the text vs model counters", case, txt[:80], want_n)
+                want_n = mfix["errors"] + mfix["warnings"]
+                if not _has_number(txt.split("\n")[0], want_n):
+                    out.mismatch("strict failure: number of errors stated in the summary line vs model counters", case,
+                                 txt.split("\n")[0][:120], want_n)
     return out
 
 
